@@ -367,6 +367,7 @@ async fn drive(sc: Rc<Scen>, chooser: Rc<RefCell<Chooser>>) -> Obs {
         flush_alts: sc.alts,
         shutdown_alts: sc.alts,
         every_offset: sc.every_offset,
+        buffered: false,
     };
     let svc = {
         let conns = conns.clone();
